@@ -212,6 +212,12 @@ PROPS["C09"] = dict(
          "statements, graph theory of edge insertion, solvers, pyvc.",
 )
 
+PROPS["C04"] = dict(
+    modules=["contracts.sched_sql", "contracts.C12_limits", "contracts.C10_dispatch", "contracts.C03_inputs",
+             "contracts.C13_hash", "contracts.C04_noop"],
+    decided=[], undecided=[], assumptions=[], level="", note="",
+)
+
 NOT_BUILT = {}
 
 _loaded = False
